@@ -22,7 +22,7 @@ PLAN = dict(
     assumptions=["each single product inside the C01 budget by construction (2*bits+log2N<52)",
                  "exact oracle: __int128 schoolbook / Goldilocks-prime NTT accumulation"],
     quick=_jobs("quick"), thorough=_jobs("thorough"),
-    fuzz=desc_fuzz("C02", fix=dict(k=(1, 9))),
+    fuzz=desc_fuzz("C02", fix=dict(k=(1, 9)), runs=50000),
     required_classes=dict(all=["cols:odd", "cols:even", "res_size<ncols,odd", "res_size>ncols", "a_size<nrows", "a_size>nrows",
                                "a_size=0", "res_size=0", "N<8", "cfg:generic", "cfg:full", "exact", "E>=1/2", "entry:apply_dft",
                                "entry:dft_to_dft", "entry:both", "bigshape", "matrix:has-zero-polynomial"] + ["k:%d" % k for k in range(1, 17)]),
